@@ -264,7 +264,7 @@ def mir_inventory(ctx):
     # immutable plain-data statics (arrays of constants, strings) are not shared MUTABLE state
     interior = ('Cell', 'Mutex', 'RwLock', 'Atomic', 'LocalKey')
     bad_static = [s for s in other_static if s['mut'] or any(w in s['type'] for w in interior)]
-    other_words = {w: c for w, c in counts.items() if c and w not in ('OnceCell',)}
+    other_words = {w: c for w, c in counts.items() if c and w not in ('OnceCell', 'OnceLock', 'LazyLock', 'Lazy<')}      # once-initialised cells of any flavour
     ctx.extra['shared_state_inventory'] = {'source': 'cargo +nightly rustc -Zunpretty=mir on a scratch copy of /repo (%.0f s)' % dt, 'statics': statics, 'interior_mutability_mentions': counts}
     if bad_static or other_words:
         ctx.m_note('C18 shared-state inventory', 'the crate holds shared mutable state other than once-initialised cells (%s %s): the reduction of the thread-schedule part to history '
